@@ -1,4 +1,5 @@
 import Diffcalc.Gen.SolverLeaf
+import Diffcalc.Gen.UtilLeaf
 import Diffcalc.Solver.Reference
 import Diffcalc.Solver.Func
 /-!
@@ -20,5 +21,13 @@ theorem chiAndQaz_generated (mu eta : α) (V : M3 α) : Gen.get_chi_and_qaz mu e
 
 theorem qazValue_generated (mu eta chi phi : α) (h : V3 α) (theta : α) :
     Gen.get_qaz_value mu eta chi phi h theta = Solver.qazValue mu eta chi phi h theta := rfl
+
+/-! the numeric primitives everything else is built from (`util.py`): the tolerance constant, `bound`, `sign` -/
+
+theorem small_generated : (Gen.small_const : α) = Scalar.SMALL := rfl
+
+theorem bound_generated (x : α) : Gen.util_bound x = PyOps.bound x := rfl
+
+theorem sign_generated (x : α) : Gen.util_sign x = Scalar.sign x := rfl
 
 end TieSolver
